@@ -6,7 +6,7 @@ _COMMON_NOTE = ('Trusted: CPython ast, the gtverif engine and the rule tables wr
 
 def _t(level, technique, note=''):
     return {'level': 'Structural necessary conditions decided exactly by custom static analysis for all inputs; the behaviour itself is not decided. ' + level
-            + ' On the call-graph closure of the operations analysed, additionally: no cross-call memo (R-STATE c), identity-bearing encodings injective -- names of composite states, __eq__, look-up keys, input word unmodified (R-INJ), declared NewType sorts State/Symbol/Direction respected (R-SORT).',
+            + ' On the call-graph closure of the operations analysed, additionally: no cross-call memo (R-STATE c), identity-bearing encodings injective -- names of composite states, __eq__, look-up and memo keys, input word unmodified (R-INJ), declared NewType sorts State/Symbol/Direction respected (R-SORT), class invariants of the automata constructed or taken as operands asserted in canonical form (R-BUILD.inv).',
             'technique': technique + ' + nominal sort check of the NewTypes + injectivity algebra for identity encodings, both on the call-graph closure', 'note': _COMMON_NOTE + note}
 
 
